@@ -128,7 +128,13 @@ func c15e3RaceRound(v c15e3Variant, round int) (returned int) {
 		if !v.Close {
 			m.CloseWithError(errC15E3Closed)
 		}
-		<-done
+		// every call returns once the map is closed and the context cancelled; a caller that is
+		// still blocked then would keep this process alive until the test timeout (30 s guard)
+		select {
+		case <-done:
+		case <-time.After(30 * time.Second):
+			panic(fmt.Sprintf("c15e3 race pass %s: calls are still blocked 30 s after CloseWithError and context cancellation", v.Name))
+		}
 	}
 	mu.Lock()
 	defer mu.Unlock()
